@@ -126,6 +126,8 @@ FillN(s) ==
   \/ Has("app") /\ Put([k |-> "app"], <<With(s, "F"), s>>, 0)
   \/ Has("let") /\ Put([k |-> "let", x |-> Fresh(1)],
                        <<s, [s EXCEPT !.n = @ \cup {Fresh(1)}, !.asg = @ \cup {Fresh(1)}]>>, 1)
+  \* a let that binds a name already in scope again (shadowing; its scope is its own body only)
+  \/ Has("letsh") /\ \E x \in s.n : Put([k |-> "let", x |-> x], <<s, [s EXCEPT !.asg = @ \cup {x}]>>, 0)
   \/ Has("letp") /\ Put([k |-> "let", x |-> Fresh(1)],
                         <<With(s, "P"), [s EXCEPT !.p = @ \cup {Fresh(1)}]>>, 1)
   \/ Has("letf") /\ Put([k |-> "let", x |-> Fresh(1)],
